@@ -42,7 +42,7 @@ fn viol(o: &Obs, rep: &mut Report, op: &str, class: &str, kind: &str, detail: St
 fn chain_spec(rng: &mut Rng, scheme: SchemeType, levels: usize, special_flag: bool, ns: &[usize]) -> Option<Spec> {
     let n = *rng.pick(ns);
     let k = if special_flag || levels == 1 && rng.bool() { levels } else { levels + 1 };
-    let bits: Vec<u32> = (0..k).map(|_| rng.range(48, 60) as u32).collect();
+    let bits: Vec<u32> = (0..k).map(|_| if scheme == SchemeType::CKKS && rng.bool() { rng.range(40, 52) as u32 } else { rng.range(48, 60) as u32 }).collect();
     let qs = coeff_primes(n, &bits, rng)?;
     let t = if scheme == SchemeType::CKKS { 0 } else { *rng.pick(&[2u64, 3, 16, 17, 97, 257]) };
     if t != 0 && qs.iter().any(|&q| refm::gcd(q, t) != 1) { return None; }
@@ -237,6 +237,16 @@ fn ckks_case(cfg: &Cfg, grp: &str, case: u64, rng: &mut Rng, rep: &mut Report, l
         let v0 = mk(rng);
         let Ok(mut ct) = lib(|| kit.enc.encrypt_new(&enc.encode_c64_array_new(&v0, None, scale))) else { return };
         for _ in 2..size { let v = mk(rng); let Ok(c2) = lib(|| kit.enc.encrypt_symmetric_new(&enc.encode_c64_array_new(&v, None, scale)).expand_seed(&kit.ctx)) else { return }; match lib(|| kit.eval.multiply_new(&ct, &c2)) { Ok(c) => ct = c, Err(_) => return } }
+        // every third source is first multiplied by an integer constant encoded at scale = (last prime of the level) exactly: every
+        // coefficient of every polynomial is then an exact multiple of the prime that rescaling divides out (its last RNS
+        // component is identically zero) — the case where the division is exact, which random data never produces
+        if nl > 1 && case % 3 == 1 {
+            let ql = *kit.level_qs(0).last().unwrap();
+            if ql < (1u64 << 53) && (ct.scale() * ql as f64).log2() + 3.0 < bits_of(0) {
+                let k = rng.range(1, 5) as f64;
+                if let Ok(c) = lib(|| kit.eval.multiply_plain_new(&ct, &enc.encode_f64_single_new(k, None, ql as f64))) { ct = c; rep.count("source_structure", "CKKS|exact multiple of the last prime"); }
+            }
+        }
         // reference slots of a ciphertext by the oracle
         let slots_of = |c: &Ciphertext| -> Vec<C64> { embed_decode(&oracle.ckks_coeffs(&kit.ctx, c)) };
         let geo: f64 = (0..size).map(|j| (n as f64).powi(j as i32)).sum();
